@@ -22,6 +22,7 @@ type c02Case struct {
 	CertType  string `json:"cert_type"`
 	Key       string `json:"key"`
 	Status    int    `json:"status"`
+	Entry     string `json:"credential,omitempty"`
 	Principal string `json:"principal_or_cn,omitempty"`
 	Defects   []string `json:"defects,omitempty"`
 }
@@ -52,7 +53,7 @@ func caseVariant(s string, rng interface{ Intn(int) int }) string {
 }
 
 func TestVerifC02(t *testing.T) {
-	rep := newVerifReport("C02", "real login flow for generated user names (case variants, dots, dashes, plus, 64 chars) x key types x cert types x configurations (Kerberos realm, Ed25519 CA, extension templates); every returned certificate decoded independently: principal/CN = normalised authenticated name, key = submitted key, end-entity user cert, verifies under published CA, SSH extensions = 5 standard + expanded configured; cross-user targets must be refused; class = (config, name shape, key type, cert type, outcome)")
+	rep := newVerifReport("C02", "real login flow (session cookie, and Authorization: Basic on the issuing request itself with the name as typed) for generated user names (case variants, dots, dashes, plus, 64 chars) x key types x cert types x configurations (Kerberos realm, Ed25519 CA, extension templates); every returned certificate decoded independently: principal/CN = normalised authenticated name, key = submitted key, end-entity user cert, verifies under published CA, SSH extensions = 5 standard + expanded configured; cross-user targets must be refused; class = (config, name shape, key type, cert type, outcome)")
 	defer rep.Finish()
 	rng := verifRand("c02")
 	nUsers := 14
@@ -118,15 +119,28 @@ func TestVerifC02(t *testing.T) {
 					if ct == "ssh" {
 						kd = k.SSH
 					}
-					for _, target := range []string{user, other, loginAs} {
+					for ti, target := range []string{user, other, loginAs, user, loginAs} {
 						if target == loginAs && loginAs == user {
 							continue
 						}
+						// the last two rounds authenticate the request itself with an Authorization: Basic header carrying
+						// the name as typed (no session): the certificate must still name the normalised user
+						entry := "cookie"
+						if ti >= 3 {
+							entry = "basic"
+							if !verifThorough() && ki > 1 {
+								continue
+							}
+						}
 						q := verifCertReq(target, ct, kd, "1h", nil)
-						q.Cookies = map[string]string{"auth_cookie": cookie}
+						if entry == "cookie" {
+							q.Cookies = map[string]string{"auth_cookie": cookie}
+						} else {
+							q.UseBasic, q.BasicUser, q.BasicPass = true, loginAs, users[user]
+						}
 						resp := env.Do(q.Build())
 						cs := c02Case{Config: c.name, LoginAs: loginAs, User: user, Target: target,
-							CertType: ct, Key: k.Name, Status: resp.Code}
+							CertType: ct, Key: k.Name, Status: resp.Code, Entry: entry}
 						shape := "plain"
 						if strings.ContainsAny(user, ".-+_") {
 							shape = "punct"
@@ -147,7 +161,10 @@ func TestVerifC02(t *testing.T) {
 						} else if target != user {
 							rel = "case-variant"
 						}
-						rep.Eval(fmt.Sprintf("%s|%s|%s|%s|%s|%s", c.name, shape, k.Name, ct, rel, out))
+						rep.Eval(fmt.Sprintf("%s|%s|%s|%s|%s|%s|%s", c.name, shape, k.Name, ct, rel, entry, out))
+						if entry == "basic" && resp.Code == 200 {
+							rep.Count("issued_to_basic_auth_requests", 1)
+						}
 						if resp.Panic != "" {
 							rep.Violate("C02/panic", "handler panicked", cs)
 							continue
@@ -212,6 +229,7 @@ func TestVerifC02(t *testing.T) {
 	rep.Floor("issued_x509", 20)
 	rep.Floor("issued_x509-kubernetes", 20)
 	rep.Floor("cross_user_requests", 20)
+	rep.Floor("issued_to_basic_auth_requests", 20)
 	for _, k := range []string{"rsa2048", "rsa4096", "ecP-256", "ed25519"} {
 		rep.Floor("issued_key_"+k, 3)
 	}
